@@ -183,6 +183,7 @@ type exec struct {
 	finished bool
 	dump     string
 	resolved string
+	elapsed  time.Duration // virtual time when the queue was found idle
 }
 
 func (x *exec) tick() int { x.clock++; return x.clock }
@@ -380,6 +381,7 @@ func (x *exec) Main() {
 		x.dump = mq.VerifDump(cids)
 		x.ev("queue idle: %s", x.dump)
 		x.finished = true
+		x.elapsed = vsched.Now().Sub(time.Unix(1_700_000_000, 0))
 		mq.Shutdown()
 	})
 }
@@ -597,7 +599,7 @@ func (x *exec) features(kinds []string) []string {
 			both = true
 		}
 	}
-	if vsched.Now().Sub(time.Unix(1_700_000_000, 0)) >= 30*time.Second {
+	if x.elapsed >= 30*time.Second {
 		rebro = true // the periodic rebroadcast had a chance to refresh
 	}
 	thr := map[int]bool{}
